@@ -102,9 +102,9 @@ fn candidates(i: &Inner, only_objs: Option<&[u8]>, dormant_pool_threads: usize, 
                 }
                 continue;
             }
-            if pool >= 1 && pool_capacity {
+            if pool >= 1 && pool_capacity && !i.pool_zero {
                 out.push(Cand { op: Some(id), obj: o.obj, prop: "C03", clause: "stranded", inv: o.inv, ret: o.ret, detail: format!("{:?} #{} on o{} was accepted at t={} but never ran although the pool may have {} thread(s)", o.kind, id, o.obj, o.ret, pool) });
-            } else if awaited.contains(&id) {
+            } else if pool == 0 && awaited.contains(&id) {
                 out.push(Cand { op: Some(id), obj: o.obj, prop: "C07", clause: "await-no-progress", inv: o.inv, ret: o.ret, detail: format!("{:?} #{} on o{} is being awaited with no pool thread but never ran", o.kind, id, o.obj) });
             }
         } else if let Some(g) = o.waiting_gate {
@@ -253,8 +253,16 @@ fn finish_if_violated(w: &Arc<World>) {
 pub fn final_quiescence(w: &Arc<World>, handles: &[Option<ObjH>]) {
     // C16: a pipe whose output stream was dropped must have shut down without any further input event
     let pipes: Vec<(usize, u32, u32, bool)> = w.with(|i| i.streams.iter().enumerate().filter(|(_, s)| s.used && s.is_pipe && s.out_dropped && !s.closed).map(|(si, s)| (si, s.drops, s.fn_drops, s.closed)).collect());
+    // (shutting down runs a last poll job on the pool: only an obligation while a pool thread is free or may be spawned)
+    let capacity = {
+        let snap = rt::snapshot();
+        let live_pool = snap.iter().filter(|t| t.name == POOL_THREAD_NAME && t.state != rt::TaskState::Finished).count();
+        let dormant = snap.iter().filter(|t| t.name == POOL_THREAD_NAME && matches!(t.state, rt::TaskState::Blocked(rt::BlockKind::Recv, _))).count();
+        let max = w.with(|i| i.cur_max);
+        max >= 1 && (dormant >= 1 || live_pool < max) && !w.with(|i| i.pool_zero)
+    };
     for (si, drops, fn_drops, _) in pipes {
-        if drops != 1 || fn_drops != 1 {
+        if (drops != 1 || fn_drops != 1) && capacity {
             w.note("C16", "pipe-not-shut-down", None, None, format!("the output stream of pipe s{} was dropped and the input stayed silent, but the input stream was dropped {} times and the processing closure {} times", si, drops, fn_drops));
         }
     }
@@ -264,7 +272,7 @@ pub fn final_quiescence(w: &Arc<World>, handles: &[Option<ObjH>]) {
         // something is stuck and no rule explains it: a defect of the harness, never of the library
         let stages: Vec<String> = w.with(|i| i.callers.iter().filter(|c| c.stage != Stage::Done).map(|c| format!("caller{}.{}@{}:{:?}", c.phase, c.idx, c.pos, c.stage)).collect());
         // with pool 0 queued asynchronous work legitimately waits for a caller: only stuck callers count
-        if unfinished_callers > 0 {
+        if unfinished_callers > 0 || w.with(|i| i.cur_max >= 1 && !i.pool_zero) {
             let snap = rt::snapshot();
             let live_pool = snap.iter().filter(|t| t.name == POOL_THREAD_NAME && t.state != rt::TaskState::Finished).count();
             let dormant = snap.iter().filter(|t| t.name == POOL_THREAD_NAME && matches!(t.state, rt::TaskState::Blocked(rt::BlockKind::Recv, _))).count();
@@ -349,7 +357,8 @@ pub fn after_drops(w: &Arc<World>) {
             } else {
                 "C11"
             };
-            if s.drops != 1 || s.fn_drops != 1 {
+            // released on the pool (the pipe's disposal queue): only an obligation while a pool thread may exist
+            if (s.drops != 1 || s.fn_drops != 1) && !i.pool_zero {
                 notes.push((prop, "stream-or-closure-not-released", s.pipe_obj, None, format!("stream s{}: input stream dropped {} times, processing closure dropped {} times (expected once each)", si, s.drops, s.fn_drops)));
             }
             // every item once, in order
